@@ -367,9 +367,20 @@ fn part_c_plugins(rep: &Reporter) -> J {
             p.files.insert("schema.graphql".into(), schema_text.clone());
             p.files.insert("ops/q.graphql".into(), "query Q { kind }\n".into());
             p.files.insert("graphql.config.yaml".into(), y.clone());
+            // history: the project was first generated with the schema pattern pointing at another (older, still present)
+            // schema file; then only the configuration is edited. The module must denote the schema of THIS run.
+            p.files.insert("old.graphql".into(), "type Query { kind: Int oldOnly: Int }\nscalar Version\n".into());
+            let mut earlier = p.clone();
+            earlier.files.insert("graphql.config.yaml".into(), y.replace("schema: ./schema.graphql", "schema: ./old.graphql"));
             let dirp = cli::thread_dir("c16");
-            cli::materialize(&dirp, &p);
+            cli::materialize(&dirp, &earlier);
             let args: Vec<String> = ["--config-file", "graphql.config.yaml", "--output-format", "json", "generate"].iter().map(|s| s.to_string()).collect();
+            let first = cli::run(&dirp, &args, &[], Duration::from_secs(30));
+            runs += 1;
+            if first.code != Some(0) {
+                rep.report(Violation { key: "machinery.c16_earlier_project".into(), what: format!("the earlier project of the history is not accepted: {}", first.stdout.chars().take(400).collect::<String>()), case: json!({}) });
+            }
+            cli::overwrite(&dirp, &p);
             let r = cli::run(&dirp, &args, &[], Duration::from_secs(30));
             runs += 1;
             let case = |extra: J| json!({"part": "C", "plugins": plugins, "model_directive_used": with_model_use, "types_named_like_directives": with_namesakes, "schema_definition_lists_only_query": only_query_root, "files": [schema_text], "config": y, "detail": extra});
